@@ -41,6 +41,8 @@ def main(argv=None) -> int:
                 mod.thorough(ctx)
             from . import selftest
             selftest.run(ctx)
+            from . import corpus
+            corpus.run(ctx)
         return report.finish(ctx)
     except AnalysisError as e:
         if ctx is None:
